@@ -896,6 +896,9 @@ func gen(out *kit.Out, r *kit.Rand, tier string) {
 	// ---- (i) boundary tables
 	o.Case("table-arith")
 	sets2 := allSets(2, table) // 100 sets over {aaa,bbb}
+	if !thorough {
+		sets2 = allSets(2, []int64{0, 1, -1, 5, math.MaxInt64, math.MinInt64, math.MinInt64 + 1}) // 64 sets
+	}
 	for _, a := range sets2 {
 		for _, b := range sets2 {
 			for _, op := range arithOps {
@@ -992,7 +995,7 @@ func gen(out *kit.Out, r *kit.Rand, tier string) {
 	}
 
 	// ---- (ii) structured random, biased to the success branch
-	n := 30000
+	n := 12000
 	if thorough {
 		n = 250000
 	}
